@@ -567,14 +567,31 @@ def resultRows (O : Oracles) (q : AggStmt) : List (List Value × List (Nat × Va
       let more ← resultRows O q rest seen
       pure (row :: more)
 
-/-- `execute_result`. All cells are computed (column by column in the code) before HAVING filters rows, so a
-transform error in any group fails the whole result. -/
+/-- one column of `extract_result_rows_by_column`: the cells of select-list item `idx` over the groups of
+`group_values` in key order (the inner loop of the code); the first cell without a value ends the column -/
+def aggColumn (O : Oracles) (q : AggStmt) (idx : Nat) (item : AggItem) : List (List Value × List (Nat × Value)) → Outcome (List Value)
+  | [] => .ok []
+  | (key, subs) :: rest => do
+    let c ← cellOf O q idx item key subs
+    let cs ← aggColumn O q idx item rest
+    pure (c :: cs)
+
+/-- `extract_result_rows_by_column`: the table is computed COLUMN BY COLUMN — outer loop over the select list in
+order, inner loop over the groups in key order —, and the first cell without a value is the answer (`?`). -/
+def aggColumns (O : Oracles) (q : AggStmt) (groups : List (List Value × List (Nat × Value))) : List (Nat × AggItem) → Outcome (List (List Value))
+  | [] => .ok []
+  | (i, item) :: rest => do
+    let c ← aggColumn O q i item groups
+    let cs ← aggColumns O q groups rest
+    pure (c :: cs)
+
+/-- `execute_result`. All cells are computed, column by column, before HAVING filters rows: a transform error in any
+group fails the whole result, and WHICH error is reported is decided in column-major order (`aggColumns`). Only then
+the rows are assembled group by group (`resultRows`: the cells of a row are the same evaluations again, so they have
+values), HAVING is evaluated per group in key order (`accept_group(..)?`), then DISTINCT. -/
 def aggResult (O : Oracles) (q : AggStmt) (st : AggState) : Outcome (AggState × RowOut) := do
   let st := publishPercentiles st
-  -- the code evaluates every transform first; mirror the error behaviour
-  let _ ← (st.vals.foldlM (fun (_ : Unit) (key, subs) => do
-      let _ ← rowOf O q key subs (enumFrom 0 q.items)
-      pure ()) () : Outcome Unit)
+  let _ ← aggColumns O q st.vals (enumFrom 0 q.items)
   let rows ← resultRows O q st.vals []
   pure (st, { columns := q.items.map (·.name), rows := rows })
 
